@@ -249,97 +249,6 @@ def run(ctx):
     # a zero-amount bank send / cw20 transfer / insurance Withdraw is rejected by the receiving module and the
     # sub-message failure reverts the whole Liquidate; so every token-moving message a liquidation reply can
     # emit needs an amount that is non-zero by the facts of the path that emits it
-    ctx.rule("R07.7", "every token-moving message a liquidation reply can emit has an amount that is provably non-zero on the emitting path", 6)
-    from .c03 import transfers_of
-
-    def mover_amount(site):
-        """amount tree of a token-moving SubMsg construction, None if it moves no tokens"""
-        for (k2, _payer, _recv, amount) in transfers_of(ix, site):
-            if k2 in ("bank-send", "cw20-transfer", "cw20-transfer-from") and amount is not None:
-                return amount
-        im = site.inner_msg()
-        mv = ix.msg_variant(im) if im is not None else None
-        if mv and mv[0].endswith("margined_insurance_fund::ExecuteMsg") and mv[1] == "Withdraw":
-            return mv[2]["amount"]
-        return None
-
-    movers = {}   # fn.key -> parameter index of the amount
-    for f in w.crate_fns(ENG):
-        if f.derived or "::_::" in f.pretty or f.kind == "Closure":
-            continue
-        try:
-            direct = model._direct_generic(ix, f)
-        except Exception:
-            continue
-        for (_p, aggs) in direct:
-            for a in aggs:
-                amt = mover_amount(model.SubMsgSite(a, f, ()))
-                if amt is None:
-                    continue
-                amt = ix.inline(amt)
-                for i in range(f.arg_count):
-                    if amt == sym.param(f.key, i, f.param_name(i)):
-                        movers[f.key] = i
-    if len(movers) < 3:
-        ctx.lost("R07.7", "token-moving message constructors (found %d)" % len(movers))
-
-    def nonzero(amount, fs):
-        """amount != 0 follows from the path facts fs: a literal, `!amount.is_zero()`, or amount = x - y with y < x"""
-        a = ix.inline(amount)
-        if tag(a) == "int":
-            return int(payload(a)[0]) != 0
-        na = N(ix, a)
-        strict = set()   # (smaller, larger) pairs of normal forms established by the path
-        for (at, o) in fs:
-            if tag(at) not in ("call", "op") or o not in (True, False):
-                continue
-            short = str(payload(at)[0]).split("::")[-1]
-            ks = kids(at)
-            if short == "is_zero" and len(ks) == 1 and o is False and N(ix, ks[0]) == na:
-                return True
-            if len(ks) == 2 and short in ("lt", "gt", "le", "ge"):
-                l, r = N(ix, ks[0]), N(ix, ks[1])
-                if (short, o) in (("lt", True), ("ge", False)):
-                    strict.add((l, r))
-                elif (short, o) in (("gt", True), ("le", False)):
-                    strict.add((r, l))
-        if isinstance(na, tuple) and len(na) == 3 and na[0] == "sub":
-            return (na[2], na[1]) in strict
-        return False
-
-    def emitters(fn, m, inherited, chain, depth, out):
-        try:
-            ps = ix.ok_paths_at(fn, m)
-        except Exception:
-            out.append((chain, None, False, "could not enumerate %s" % fn.pretty))
-            return
-        for p in ps:
-            fs = set(inherited) | guards._own_facts(ix, p, m)
-            for e in p.events:
-                if e.target is None:
-                    continue
-                args2 = tuple(sym.subst(a, m) for a in e.args) if m else tuple(e.args)
-                if e.target.key in movers:
-                    amt = args2[movers[e.target.key]]
-                    out.append((chain + (short_fn(e.target).split("::")[-1],), amt, nonzero(amt, fs), None))
-                elif depth > 0 and model.constructs_submsg(ix, e.target):
-                    emitters(e.target, ix.param_map(e.target, args2), fs, chain + (short_fn(e.target).split("::")[-1],), depth - 1, out)
-
-    for ckey in sorted(em.chains):
-        if not ckey.startswith("Liquidate>"):
-            continue
-        st = em.chains[ckey][-1]
-        out = []
-        emitters(st.fn, st.m, (), (), 4, out)
-        by_chain = {}
-        for (chain, amt, ok, err) in out:
-            d = by_chain.setdefault(">".join(chain), {"ok": True, "amts": set(), "err": None})
-            d["ok"] = d["ok"] and ok
-            if amt is not None:
-                d["amts"].add((norm.show(N(ix, amt)), ok))
-            d["err"] = d["err"] or err
-        for cname, d in sorted(by_chain.items()):
-            badamts = sorted(a for (a, ok) in d["amts"] if not ok)
-            ctx.inst("R07.7", "nonzero-amount:%s:%s" % (ckey, cname), d["ok"], st.fn.where(),
-                     d["err"] or ("amount %s can be zero on an emitting path: the receiving module rejects a zero transfer and the Liquidate reverts" % badamts[:2] if badamts
-                                  else "%d emitting paths, amount non-zero by a path fact (is_zero test / strict comparison before the subtraction)" % len(d["amts"])))
+    from .nonzero import nonzero_instances
+    nonzero_instances(ctx, em, "R07.7", "every token-moving message a liquidation reply can emit has an amount that is provably non-zero on the emitting path", 6,
+                      lambda ckey: ckey.startswith("Liquidate>"), "the receiving module rejects a zero transfer and the Liquidate reverts")
